@@ -53,3 +53,28 @@ PROPS["C14"] = dict(
              params=dict(quick=dict(list=[0, 3], Dbits=[6]), thorough=dict(list=[0, 1, 2, 3, 4, 5], Dbits=[10]))),
     ],
 )
+
+PROPS["C18"] = dict(
+    level="model_checking",
+    level_text="Bounded symbolic checking of the real utils helpers: IsNonFatalConfig is compared with the subset definition evaluated BY LOOKUP in the harness, for symbolic priority "
+               "sets in every input order (Fair: exact, Int encoding, q over the whole uint range; Rate: uninterpreted float arithmetic, i.e. for any float values, with an exact-float "
+               "refinement on a catalogue whenever a candidate appears); the four PickUp loops are run against an UNINTERPRETED predicate (contract substitution of isNonFatalConfig / "
+               "isSuitableConfig), so least/greatest-q holds for every divider and limit; the arguments handed to the predicate are checked to be all 2^n-1 sorted combinations.",
+    level_note="Bounds: n<=3 (Fair), n<=2 (Rate structure), max<=6 quick / 12 thorough for the PickUp loops. Outside: the numeric value of isDistributionSuitable's percentage test "
+               "(only its structure: suitable => non-fatal; monotonicity in the limit is covered for n=1), n>4. v1 utils is a line-for-line copy and is checked by the v1 group.",
+    technique="symbolic execution of go/ssa; Int encoding; uninterpreted floats with exact-float refinement (cvc5); contract substitution with an uninterpreted predicate",
+    bounds=dict(quick="Fair n<=3 all permutations, q in uint64; Rate-UF n<=2; PickUp max<=6", thorough="Fair n<=4; Rate exact on [3 2 1],[7 5 3 1],[2 1] with q<16; PickUp max<=12"),
+    assumptions=["a sat answer under uninterpreted floats is only a candidate and is refined under exact floats before it is reported",
+                 "PickUp loops: max below 2^64-1 (the loop counter would wrap otherwise; outside the stated range 0..300)"],
+    groups=[
+        dict(mod="v2", pkg="priority/utils", overlay="harness/v2/utils", harness="^VerifC18_nonfatal_fair$", native=True,
+             params=dict(quick=dict(n=[1, 2, 3]), thorough=dict(n=[1, 2, 3, 4]))),
+        dict(mod="v2", pkg="priority/utils", overlay="harness/v2/utils", harness="^VerifC18_nonfatal_rate_uf$", native=False, approx=True, refined_by="rate_exact",
+             params=dict(quick=dict(n=[1, 2]), thorough=dict(n=[1, 2]))),
+        dict(name="rate_exact", mod="v2", pkg="priority/utils", overlay="harness/v2/utils", harness="^VerifC18_nonfatal_rate_exact$", native=True,
+             only_as_refinement=True, always_in_thorough=True, timeout=120000,
+             params=dict(quick=dict(list=[1], Qbits=[4]), thorough=dict(list=[0, 1, 5], Qbits=[4]))),
+        dict(mod="v2", pkg="priority/utils", overlay="harness/v2/utils", harness="^VerifC18_pickup", native=False,
+             params=dict(quick=dict(n=[2], M=[6]), thorough=dict(n=[3], M=[12]))),
+    ],
+)
